@@ -60,11 +60,12 @@ def run(ctx):
             'm.Price = 5': binop('=', ident('m.Price'), const(5)),
             'm.e BETWEEN': Obj('BetweenOperation', op='between', args=[ident('m.e'), const(1), const(2)], alias=None),
             'm.f != 1': binop('!=', ident('m.f'), const(1)),
+            'm.ric = 7': binop('=', ident('m.ric'), const(7)),          # the name is a substring of the target's name
         }
-    expected_args = {'m.a = 1': ('a', 1), '2 = m.b': ('b', 2), 'm.d = :p': ('d', 'P')}
+    expected_args = {'m.a = 1': ('a', 1), '2 = m.b': ('b', 2), 'm.d = :p': ('d', 'P'), 'm.ric = 7': ('ric', 7)}
     names = list(family())
     subsets = [c for r in range(0, 4) for c in itertools.combinations(names, r)] + [tuple(names)]
-    for target_form, subset in itertools.product(('price', ['Price'], None, []), subsets):
+    for target_form, subset in itertools.product(('price', ['Price'], ['Price', 'ric2'], None, []), subsets):
         fam = family()
         origs = [fam[n] for n in subset]
         item = Obj('TableInfo', integration='proj', table=ident('model'), aliases=[('m',)], conditions=[registered(o) for o in origs],
@@ -80,7 +81,7 @@ def run(ctx):
                 want[expected_args[n][0]] = expected_args[n][1]
                 consumed.add(n)
             if n == 'm.Price = 5':
-                if target_form in ('price', ['Price']):
+                if target_form in ('price', ['Price'], ['Price', 'ric2']):
                     pass                      # the predict target is neither an argument nor removed from the outer filter
                 else:
                     want['Price'] = 5
@@ -186,7 +187,7 @@ def run(ctx):
             ctx.ob('C14.filter-split', f'{f.rule}:{f.construct}', False,
                    f'the same collector decides what becomes a model argument and what is pushed into a table fetch: {f.msg}', file=f.file, line=f.line, witness=f.witness)
     ctx.setcount('truth_table_rows', rows)
-    ctx.floor('truth_table_rows', 280)
+    ctx.floor('truth_table_rows', 400)
     ctx.floor('c08_obligations', 60)
 
 
